@@ -102,7 +102,7 @@ func (comp) Gen(prop string, rng *rand.Rand, tier string) *core.History {
 		}
 		return core.Pick(rng, alpha)
 	}
-	values := [][]byte{{1}, {2}, {3}, {}, {0xaa, 0xbb}, core.NilValue, core.LongValue()} // incl. the untyped nil (the cache used as a set)
+	values := [][]byte{{1}, {2}, {3}, {}, {0xaa, 0xbb}, {0xaa, 0xff}, []byte("ab"), []byte("AB"), core.NilValue, core.LongValue()} // incl. the untyped nil (the cache used as a set)
 	ids := [][]byte{[]byte("h1"), []byte("h2"), []byte("h3")}
 	tag := uint64(0)
 	if core.Chance(rng, 1, 2) {
